@@ -74,6 +74,8 @@ for k in ["tensor.(*Dense).Concat(t)", "tensor.(*Dense).Hstack(t)", "tensor.(*De
 
 finding(["C08","C07"], "EC", "tensor.(StdEng).prepReduce#Reshape1", "prepReduce drops the error of reuse.Reshape(newShape...): a reuse tensor that cannot be reshaped (non-contiguous view) is reduced into with its old shape", "dropped Reshape", 23)
 
+finding(["C16"], "S11", "tensor.(*AP).setDataOrder", "setDataOrder (called by handleFuncOpts on the reuse tensor) flips the column-major bit and keeps the row-major strides: Add(colA, colB, WithReuse(rowR)) returns flag ColMajor with strides [3 1]; At(0,1)=13 instead of 11", "flag flipped, strides kept", 40)
+
 # ---- engine L (layout predicates) ------------------------------------------------------------
 finding(["C12","C16","C07","C06","C11","C04"], "L0", "tensor.prepDataUnary#useIter",
         "prepDataUnary has no data-order term: Neg(colA, WithIncr(rowZeros)) adds raw column-major data into a row-major buffer (non-incr reuse is compensated by handleFuncOpts giving reuse the operand's order)",
@@ -104,6 +106,7 @@ finding(["C16"], "L3", "tensor.Copy@copyDense(%dt, %ts) ⊨ %ts.DataOrder().HasS
 finding(["C16"], "L4", "tensor.ToMat64@mat.NewDense( ?$t.DataOrder().IsColMajor()", "ToMat64 hands column-major storage to the row-major mat.Dense", "without a test of $t.DataOrder().IsColMajor()", 18)
 
 FIXED = [
+ {"property":"C15","commit":"08e30d7","rule":"E1","key":"tensor.(*Dense).Filled#1, tensor.(*Dense).FilledInplace#1","what":"fixed: property=C15 08e30d7 Filled/FilledInplace vector arm tested err != nil (nothing filled on success, nil dereference on failure) and sliced column vectors along the unit axis (DESIGN finding 39)"},
  {"property":"C04","commit":"de90854","rule":"L1","key":"tensor.(*Dense).Zero@$r.array.Zero()","what":"fixed: property=C04 de90854 Dense.Zero on a view fell through to the raw array.Zero(): a[:,1].Zero() on a 3x3 tensor zeroed 7 parent cells (DESIGN finding 4)"},
  {"property":"C20","commit":"7b98fe7","rule":"L2","key":"tensor.(Float64Engine).FMAScalar, tensor.(Float32Engine).FMAScalar","what":"fixed: property=C20 7b98fe7 FMAScalar's iterator branch fell through to the raw kernel: result doubled (DESIGN finding 20)"},
  {"property":"C05","commit":"a2da045","rule":"I5","key":"tensor.hashIntArray","what":"fixed: property=C05 a2da045 hashIntArray returned the byte count of h.Write, so MultIteratorFromDense(a, bT) yielded offsets 0..5 for bT (DESIGN finding 6)"},
